@@ -78,7 +78,8 @@ def _case(draw, tier):
         (1, ops.decoy_op(PIDS, ("-", None, FORMATS[1]))),
         (1, ops.REOPEN))
     n = 30 if tier == "quick" else 50
-    return {"cfg": cfg, "contents": cs, "docs": docs, "ops": draw(ops.history(ops.on_instances(op), 1, n))}
+    return {"cfg": cfg, "contents": cs, "docs": docs, "ops": draw(ops.history(ops.on_instances(op), 1, n)),
+            "root_via": draw(st.sampled_from([None] * 7 + ["symlink"]))}
 
 
 def strategy(tier):
